@@ -341,7 +341,16 @@ Inductive response :=
 
 Definition https_prefix : str := bs "https://".
 
+(** redirectToHTTPS: the port is removed; SplitHostPort strips the brackets of
+    an IPv6 literal, which are put back. *)
 Definition redirect_host (h : str) : str :=
+  match split_host_port h with
+  | Some x => if contains_byte x colon then x5b :: x ++ [x5d] else x
+  | None => h
+  end.
+
+(** the tree as given: brackets lost, "[::1]:80" gave "https://::1/..." *)
+Definition redirect_host_pinned (h : str) : str :=
   match split_host_port h with Some x => x | None => h end.
 
 (** [in_group] is RolloutController.RequestUsesRolloutGroup on the cookie value
